@@ -146,6 +146,16 @@ def check(chk):
             ok2 = [src(a) for a in c.args] == ["kwargs"] and kws.get("cls") == "MpfJSONEncoder" and not (set(kws) & NARROWING)
             chk.ob("DOM-37", "the JSON form dumps all parameters with the MPF encoder and no narrowing option (what json.loads accepts, json.dumps emits)", ok2,
                    enc.where(c), detail=str(kws), construct=enc.ident, text="json dump options")
+        # the JSON text goes on the line as it is and is loaded as it is: no further rewriting on either side (an escape added on one side and
+        # undone on the other mangles every text that already contains the escape)
+        v_ = n.ast.value
+        direct = isinstance(v_, ast.Call) and call_attr(v_) == "format" and len(v_.args) == 1 and isinstance(v_.args[0], ast.Call) and call_attr(v_.args[0]) == "dumps"
+        chk.ob("DOM-37", "the JSON body is the dump itself (not rewritten afterwards)", direct, enc.where(v_), detail=short(v_, 90), construct=enc.ident,
+               text="json body rewritten")
+    lds = [x for x in ast.walk(dec.node) if isinstance(x, ast.Call) and call_attr(x) == "loads"]
+    ok3 = len(lds) == 1 and [src(a).replace(" ", "") for a in lds[0].args] == ["bcp_command.query[5:]"]
+    chk.ob("DOM-37", "the decoder loads everything after `json=` as it arrived", ok3, dec.where(lds[0]) if lds else dec.where(), detail=src(lds[0]) if lds else "",
+           construct=dec.ident, text="json body loaded rewritten")
 
     # ------------------------------------------------------------ decoder
     dcfg = dec.cfg()
@@ -460,6 +470,7 @@ def battery():
         M("decoder drops parameters named like an earlier prefix", BS, "        if name in kwargs:\n            continue", "        if name in kwargs or name.startswith('_'):\n            continue", "TABLE-9"),
         M("only the last parameter is sent", BS, "        kwarg_string += '{}={}&'.format(quote(k, ''),", "        kwarg_string = '{}={}&'.format(quote(k, ''),", "LAYER-1"),
         M("JSON form refuses non-finite floats", BS, "json.dumps(kwargs, cls=MpfJSONEncoder)", "json.dumps(kwargs, cls=MpfJSONEncoder, allow_nan=False)", "DOM-37"),
+        M("JSON body escapes & without escaping the escape", BS, "kwarg_string = 'json={}'.format(json.dumps(kwargs, cls=MpfJSONEncoder))", "kwarg_string = 'json={}'.format(json.dumps(kwargs, cls=MpfJSONEncoder).replace('&', '%26'))", "DOM-37"),
     ]
 
 
